@@ -61,8 +61,42 @@ STAGES = {
 }
 
 
+# Wide walks: more roots than any plausible per-request limit (16, 20, 32, 40
+# OIDs), sibling subtrees 1.3.k of unequal length.  One configuration per
+# (number of roots, length pattern, what follows the last subtree, bulk size,
+# order in which the roots are listed).
+WIDE_N = {"quick": (17, 21, 33, 41), "thorough": (9, 17, 21, 22, 33, 41, 45, 65)}
+WIDE_PATTERNS = ("first-long", "last-long", "alternating", "first-chunk-short", "all-two", "one-empty")
+WIDE_BULK = (1, 3, 10)
+
+
+def wide_db(n, pattern, tail):
+    sizes = []
+    for k in range(1, n + 1):
+        if pattern == "first-long":
+            sizes.append(12 if k == 1 else 2)
+        elif pattern == "last-long":
+            sizes.append(12 if k == n else 2)
+        elif pattern == "alternating":
+            sizes.append(1 if k % 2 else 4)
+        elif pattern == "first-chunk-short":
+            sizes.append(1 if k <= 16 else 5)
+        elif pattern == "all-two":
+            sizes.append(2)
+        else:  # one-empty
+            sizes.append(0 if k == n // 2 else 3)
+    db = {(1, 2, 9): ("str", b"before")}
+    for k, size in enumerate(sizes, start=1):
+        for i in range(1, size + 1):
+            db[(1, 3, k, i)] = ("int", 100 * k + i)
+    if tail:
+        db[(1, 5, 8)] = ("str", b"after")
+    roots = tuple((1, 3, k) for k in range(1, n + 1))
+    return db, roots
+
+
 def bounds(tier):
-    return {"stages": STAGES[tier]}
+    return {"stages": STAGES[tier], "wide": {"roots": list(WIDE_N[tier]), "patterns": list(WIDE_PATTERNS), "bulk": list(WIDE_BULK), "deviations": 0 if tier == "quick" else 1}}
 
 
 def root_lists_for(stage):
@@ -83,6 +117,9 @@ def shards(tier):
         dbs.sort(key=lambda d: (hash(d) % 9973, d))
         n = max(16, min(64, len(dbs) // 4))
         out.extend({"dbs": chunk, "tier": tier, "stage": si} for chunk in scopes.chunks(dbs, n))
+    for n in WIDE_N[tier]:
+        for pattern in WIDE_PATTERNS:
+            out.append({"wide": True, "n": n, "pattern": pattern, "tier": tier})
     return out
 
 
@@ -96,7 +133,13 @@ def make_run(db, roots, bulk, client, cut_rows=None):
     below, equal = models.subtree(db, roots)
     horizon = (len(db) + 2) * len(roots) + 4
 
+    shared = client
+
     def run(ctx):
+        # a fresh client per execution (whatever state an implementation keeps
+        # on its client cannot make executions depend on one another), unless
+        # the caller passes the long-lived client of the history pass
+        client = shared if shared is not None else world.make_client(creds(), lambda p: b"")[0]
         ag = ragent.Agent(db)
         info_log = []
 
@@ -182,16 +225,19 @@ def getnext_walk(db, roots, client):
     return result, exc
 
 
-def explore_config(stage, db_idx, roots, bulk, client, acc, ref_cache):
+def explore_config(stage, db_idx, roots, bulk, client, acc, ref_cache, params=None, db=None):
     bound = stage["deviations"]
-    db = scopes.db_from_indices(db_idx, UNIVERSES[stage["universe"]][0])
-    run = make_run(db, roots, bulk, client, stage["cut_rows"])
+    if db is None:
+        db = scopes.db_from_indices(db_idx, UNIVERSES[stage["universe"]][0])
+    run = make_run(db, roots, bulk, None, stage["cut_rows"])
     key = frozenset(roots)
     if key not in ref_cache:
         ref_cache[key] = getnext_walk(db, roots, client)
     ref_result, ref_exc = ref_cache[key]
     ref_set = frozenset(o for o, _ in ref_result) if ref_result is not None and ref_exc is None else None
     case = {"db": sorted(db), "roots": [list(r) for r in roots], "bulk": bulk, "cut_rows": stage["cut_rows"]}
+    if stage.get("wide"):
+        case = {"wide": stage["wide"], "roots_reversed": roots[0] > roots[-1], "bulk": bulk, "cut_rows": stage["cut_rows"]}
 
     def on_exec(ctx, obs_all, violations):
         obs, nontrivial, nreq = obs_all
@@ -215,6 +261,18 @@ def explore_config(stage, db_idx, roots, bulk, client, acc, ref_cache):
             )
 
     stats, found = explore.explore(run, bound=bound, on_exec=on_exec, double_every=200)
+    # history pass: the same walk (conformant agent, full answers) once more on
+    # the shard's long-lived client, which has served every earlier
+    # configuration of the shard - what it did before must not matter
+    _, obs_all, violations = explore.run_once(make_run(db, roots, bulk, client, stage["cut_rows"]), ())
+    violations = list(violations)
+    on_exec(explore.Ctx(()), obs_all, violations)
+    for v in violations:
+        v = dict(v)
+        v["detail"] = dict(v.get("detail") or {}, on_a_client_that_served_earlier_walks=True)
+        v["history_pass"] = True
+        found.append(((), v))
+    acc.bump("history_pass_walks", 1)
     acc.count(evaluations=0, states=stats.nodes + stats.executions, transitions=stats.transitions)
     acc.maxi("max_depth", stats.max_depth)
     acc.bump("double_runs", stats.double_runs)
@@ -222,6 +280,8 @@ def explore_config(stage, db_idx, roots, bulk, client, acc, ref_cache):
     for choices, v in found:
         v = dict(v)
         v["case"] = {**case, "choices": list(choices)}
+        if v.pop("history_pass", False):
+            v["case"]["history_pass_of_shard"] = {k2: params[k2] for k2 in ("dbs", "tier", "stage")} if params else None
         k = (v["kind"], tuple(v["facts"].get("cuts", ()))[:2])
         if k in seen:
             continue
@@ -231,7 +291,22 @@ def explore_config(stage, db_idx, roots, bulk, client, acc, ref_cache):
             break
 
 
+def run_wide(params, acc):
+    client, _ = world.make_client(creds(), lambda p: b"")
+    for tail in (False, True):
+        db, roots = wide_db(params["n"], params["pattern"], tail)
+        stage = {"deviations": 0 if params["tier"] == "quick" else 1, "cut_rows": 1, "wide": [params["n"], params["pattern"], tail]}
+        for order in (roots, tuple(reversed(roots))):
+            ref_cache = {}
+            for bulk in WIDE_BULK:
+                explore_config(stage, None, order, bulk, client, acc, ref_cache, None, db=db)
+    acc.bump("wide_configs", 2 * 2 * len(WIDE_BULK))
+
+
 def run_shard(params, acc):
+    if params.get("wide"):
+        run_wide(params, acc)
+        return
     stage = STAGES[params["tier"]][params["stage"]]
     client, _ = world.make_client(creds(), lambda p: b"")
     lists = root_lists_for(stage)
@@ -240,7 +315,7 @@ def run_shard(params, acc):
         ref_cache = {}
         for roots in lists:
             for bulk in stage["bulk"]:
-                explore_config(stage, db_idx, roots, bulk, client, acc, ref_cache)
+                explore_config(stage, db_idx, roots, bulk, client, acc, ref_cache, params)
     acc.bump("stage_%s_configs" % stage["name"], len(params["dbs"]) * len(lists) * len(stage["bulk"]))
 
 
@@ -255,11 +330,35 @@ def _values(oids):
     return out
 
 
-def replay(case):
+def replay_history(case):
+    """the history pass of the shard up to the failing configuration: default
+    executions of every configuration, in order, on one long-lived client"""
+    params = case["history_pass_of_shard"]
+    stage = STAGES[params["tier"]][params["stage"]]
     client, _ = world.make_client(creds(), lambda p: b"")
-    db = _values(case["db"])
-    roots = tuple(tuple(r) for r in case["roots"])
-    run = make_run(db, roots, case["bulk"], client, case.get("cut_rows"))
+    target = (sorted(tuple(o) for o in case["db"]), [tuple(r) for r in case["roots"]], case["bulk"])
+    for db_idx in params["dbs"]:
+        db = scopes.db_from_indices(tuple(db_idx), UNIVERSES[stage["universe"]][0])
+        for roots in root_lists_for(stage):
+            for bulk in stage["bulk"]:
+                _, obs_all, violations = explore.run_once(make_run(db, roots, bulk, client, stage["cut_rows"]), ())
+                if (sorted(db), [tuple(r) for r in roots], bulk) == target:
+                    return violations
+    return []
+
+
+def replay(case):
+    if case.get("history_pass_of_shard"):
+        return replay_history(case)
+    client, _ = world.make_client(creds(), lambda p: b"")
+    if case.get("wide"):
+        db, roots = wide_db(*case["wide"])
+        if case.get("roots_reversed"):
+            roots = tuple(reversed(roots))
+    else:
+        db = _values(case["db"])
+        roots = tuple(tuple(r) for r in case["roots"])
+    run = make_run(db, roots, case["bulk"], None, case.get("cut_rows"))
     _, obs_all, violations = explore.run_once(run, case["choices"])
     ref_result, ref_exc = getnext_walk(db, roots, client)
     if ref_exc is None and obs_all[0][0] is None and not violations:
@@ -272,7 +371,7 @@ def meta(tier):
     b = bounds(tier)
     return {
         "level": "model_checking",
-        "rule": "choice tree per configuration (database x ordered disjoint root list x bulk size): at every GETBULK the agent sends the full RFC 3416 answer (default) or a non-empty proper prefix of it (deviation; all prefixes, or all prefixes ending within the first cut_rows repetitions where a stage says so); stages (each explored exhaustively within its deviation bound, None = unbounded): %s; every execution is the real Client.bulkwalk against the reference agent, compared with the subtree model and with the real Client.multiwalk; non-trivial = some answer carried several bindings for several columns or was truncated"
+        "rule": "choice tree per configuration (database x ordered disjoint root list x bulk size): at every GETBULK the agent sends the full RFC 3416 answer (default) or a non-empty proper prefix of it (deviation; all prefixes, or all prefixes ending within the first cut_rows repetitions where a stage says so); stages (each explored exhaustively within its deviation bound, None = unbounded): %s; every execution is the real Client.bulkwalk on a fresh client against the reference agent (plus, per configuration, the default execution on a long-lived client that served all earlier configurations of its shard), compared with the subtree model and with the real Client.multiwalk; non-trivial = some answer carried several bindings for several columns or was truncated"
         % (b["stages"],),
         "exhaustive": True,
         "bounds": b,
